@@ -7,7 +7,7 @@ package keeper
 // ---------------------------------------------------------------------------------------------
 // Pure price functions (C01)
 
-//@ func GetInputPrice
+//@ func GetInputPrice(inputAmt, inputReserve, outputReserve, fee)
 //@   property C01, C16
 //@   returns r
 //@   requires inputAmt >= 0 && inputReserve > 0 && outputReserve > 0
@@ -19,7 +19,7 @@ package keeper
 //@   nopanic
 //@ end
 
-//@ func GetOutputPrice
+//@ func GetOutputPrice(outputAmt, inputReserve, outputReserve, fee)
 //@   property C01, C16
 //@   returns p
 //@   requires outputAmt > 0 && inputReserve > 0 && outputReserve > outputAmt
@@ -58,7 +58,7 @@ package keeper
 //@ define leg(b, s, r, p, ds, sold, db, bought) = credit(debit(credit(debit(b, s, ds, sold), p, ds, sold), p, db, bought), r, db, bought)
 
 // swapCoins: whole-ledger postcondition. Four sequential transfers on the bank ledger, nothing else.
-//@ func Keeper.swapCoins
+//@ func Keeper.swapCoins(ctx, sender, recipient, coinSold, coinBought)
 //@   property C02
 //@   returns err
 //@   let pa = poolAddrOf(poolOf(cpDenom(coinSold.Denom, coinBought.Denom)))
@@ -71,7 +71,7 @@ package keeper
 //@ end
 
 // calculateWithExactInput: price of one leg read from the pool's current reserves, fee from the stored params.
-//@ func Keeper.calculateWithExactInput
+//@ func Keeper.calculateWithExactInput(ctx, exactSoldCoin, boughtTokenDenom)
 //@   property C01
 //@   returns r, err
 //@   requires paramsStored
@@ -85,7 +85,7 @@ package keeper
 //@   ensures range:   err == nil ==> 0 <= r && r < Y
 //@ end
 
-//@ func Keeper.calculateWithExactOutput
+//@ func Keeper.calculateWithExactOutput(ctx, exactBoughtCoin, soldTokenDenom)
 //@   property C01
 //@   returns p, err
 //@   requires paramsStored
@@ -100,7 +100,7 @@ package keeper
 //@ end
 
 // Single-hop sell order.
-//@ func Keeper.TradeExactInputForOutput
+//@ func Keeper.TradeExactInputForOutput(ctx, input, output)
 //@   property C01, C02
 //@   returns bought, err
 //@   requires paramsStored
@@ -119,7 +119,7 @@ package keeper
 //@ end
 
 // Single-hop buy order.
-//@ func Keeper.TradeInputForExactOutput
+//@ func Keeper.TradeInputForExactOutput(ctx, input, output)
 //@   property C01, C02
 //@   returns sold, err
 //@   requires paramsStored
@@ -143,7 +143,7 @@ package keeper
 // The ledger clause is the composition of two legs in which the intermediate standard coin goes to the sender
 // and is spent by the sender; S1 (the intermediate amount) is read off pool 1's reserve change.
 
-//@ func Keeper.doubleTradeExactInputForOutput
+//@ func Keeper.doubleTradeExactInputForOutput(ctx, input, output)
 //@   property C01, C02
 //@   returns bought, err
 //@   requires paramsStored
@@ -169,7 +169,7 @@ package keeper
 //@           (X2*DEC_ONE + FEEF*(Y1 - bal(pa1, std))) * (Y2 - bought) >= X2*Y2*DEC_ONE
 //@ end
 
-//@ func Keeper.doubleTradeInputForExactOutput
+//@ func Keeper.doubleTradeInputForExactOutput(ctx, input, output)
 //@   property C01, C02
 //@   returns sold, err
 //@   requires paramsStored
@@ -208,7 +208,7 @@ package keeper
 //@ define feeLegs(b, s, fc, fd, f, tax) = debit(credit(debit(credit(debit(b, s, fd, f), MOD, fd, f), MOD, fd, tax), fc, fd, tax), MOD, fd, f - tax)
 
 // Pool-creation fee: tax = floor(fee * rate) to the fee collector, the rest burned, module nets to zero.
-//@ func Keeper.DeductPoolCreationFee
+//@ func Keeper.DeductPoolCreationFee(ctx, creator)
 //@   property C02, C16
 //@   returns err
 //@   requires paramsStored
@@ -223,7 +223,7 @@ package keeper
 //@   nopanic C16
 //@ end
 
-//@ func Keeper.addLiquidity
+//@ func Keeper.addLiquidity(ctx, sender, poolAddress, standardCoin, token, lptDenom, mintLiquidityAmt)
 //@   property C02
 //@   returns minted, err
 //@   let pa = addr(poolAddress)
@@ -235,7 +235,7 @@ package keeper
 //@   ensures distinct: err == nil ==> standardCoin.Denom != token.Denom
 //@ end
 
-//@ func Keeper.AddLiquidity
+//@ func Keeper.AddLiquidity(ctx, msg)
 //@   property C01, C02
 //@   returns minted, err
 //@   requires paramsStored
@@ -272,7 +272,7 @@ package keeper
 //@                                       sender, poolAddrOf(get(pools, pid)), std, dS, tok, msg.MaxToken.Amount), sender, get(pools, pid).LptDenom, dS)
 //@ end
 
-//@ func Keeper.removeLiquidity
+//@ func Keeper.removeLiquidity(ctx, poolAddr, sender, deductUniCoin, irisWithdrawCoin, tokenWithdrawCoin)
 //@   property C02
 //@   returns coins, err
 //@   requires deductUniCoin.Amount >= 0 && irisWithdrawCoin.Amount >= 0 && tokenWithdrawCoin.Amount >= 0
@@ -283,7 +283,7 @@ package keeper
 //@   ensures funded: err == nil ==> old(bal(sender, deductUniCoin.Denom)) >= deductUniCoin.Amount
 //@ end
 
-//@ func Keeper.RemoveLiquidity
+//@ func Keeper.RemoveLiquidity(ctx, msg)
 //@   property C01, C02
 //@   returns coins, err
 //@   requires msg.WithdrawLiquidity.Amount > 0 && msg.MinToken >= 0 && msg.MinStandardAmt >= 0
@@ -307,7 +307,7 @@ package keeper
 //@           bal(pa, std) * bal(pa, tok) * L * L >= S * T * supply(lpt) * supply(lpt)
 //@ end
 
-//@ func Keeper.addUnilateralLiquidity
+//@ func Keeper.addUnilateralLiquidity(ctx, sender, poolAddr, exactToken, lptDenom, mintLptAmt)
 //@   property C02
 //@   returns minted, err
 //@   requires exactToken.Amount >= 0 && mintLptAmt >= 0
@@ -317,7 +317,7 @@ package keeper
 //@   ensures minted: err == nil ==> supply == addcoin(old(supply), lptDenom, mintLptAmt) && minted == coin(lptDenom, mintLptAmt)
 //@ end
 
-//@ func Keeper.AddUnilateralLiquidity
+//@ func Keeper.AddUnilateralLiquidity(ctx, msg)
 //@   property C01, C02
 //@   returns minted, err
 //@   requires paramsStored
@@ -348,7 +348,7 @@ package keeper
 //@   ensures @C01 reserve_denom: err == nil ==> xd == cd || xd == std
 //@ end
 
-//@ func Keeper.removeUnilateralLiquidity
+//@ func Keeper.removeUnilateralLiquidity(ctx, sender, poolAddr, lptDenom, targetTokenDenom, exactLiquidity, targetTokenAmtAfterFee)
 //@   property C02
 //@   returns coins, err
 //@   requires exactLiquidity >= 0 && targetTokenAmtAfterFee >= 0
@@ -358,7 +358,7 @@ package keeper
 //@   ensures burned: err == nil ==> supply == addcoin(old(supply), lptDenom, 0 - exactLiquidity)
 //@ end
 
-//@ func Keeper.RemoveUnilateralLiquidity
+//@ func Keeper.RemoveUnilateralLiquidity(ctx, msg)
 //@   property C01, C02
 //@   returns coins, err
 //@   requires paramsStored
@@ -406,7 +406,7 @@ package keeper
 //@ define swThirdDenoms(m) = anydenom(1) != m.Input.Coin.Denom && anydenom(1) != m.Output.Coin.Denom ==>
 //@                    bal(swSender(m), anydenom(1)) == old(bal(swSender(m), anydenom(1))) && bal(swRcpt(m), anydenom(1)) == old(bal(swRcpt(m), anydenom(1)))
 
-//@ func Keeper.Swap
+//@ func Keeper.Swap(ctx, msg)
 //@   property C02
 //@   returns err
 //@   requires paramsStored
@@ -417,7 +417,7 @@ package keeper
 //@   ensures third_denoms: err == nil && swApart(msg) ==> swThirdDenoms(msg)
 //@ end
 
-//@ func msgServer.SwapCoin
+//@ func msgServer.SwapCoin(goCtx, msg)
 //@   property C02
 //@   returns resp, err
 //@   requires paramsStored
@@ -429,7 +429,7 @@ package keeper
 //@   ensures third_denoms: err == nil && swApart(msg) ==> swThirdDenoms(msg)
 //@ end
 
-//@ func msgServer.AddLiquidity
+//@ func msgServer.AddLiquidity(goCtx, msg)
 //@   property C02
 //@   returns resp, err
 //@   requires paramsStored
@@ -439,7 +439,7 @@ package keeper
 //@   ensures deadline: err == nil ==> time <= msg.Deadline * 1000000000
 //@ end
 
-//@ func msgServer.RemoveLiquidity
+//@ func msgServer.RemoveLiquidity(goCtx, msg)
 //@   property C02
 //@   returns resp, err
 //@   requires msg.WithdrawLiquidity.Amount > 0 && msg.MinToken >= 0 && msg.MinStandardAmt >= 0
@@ -450,7 +450,7 @@ package keeper
 //@   ensures deadline: err == nil ==> time <= msg.Deadline * 1000000000
 //@ end
 
-//@ func msgServer.AddUnilateralLiquidity
+//@ func msgServer.AddUnilateralLiquidity(goCtx, msg)
 //@   property C02
 //@   returns resp, err
 //@   requires paramsStored
@@ -460,7 +460,7 @@ package keeper
 //@   ensures deadline: err == nil ==> time <= msg.Deadline * 1000000000
 //@ end
 
-//@ func msgServer.RemoveUnilateralLiquidity
+//@ func msgServer.RemoveUnilateralLiquidity(goCtx, msg)
 //@   property C02
 //@   returns resp, err
 //@   requires paramsStored
@@ -473,7 +473,7 @@ package keeper
 // ---------------------------------------------------------------------------------------------
 // Parameters (C16): stored only when valid, changed only by the authority
 
-//@ func Keeper.SetParams
+//@ func Keeper.SetParams(ctx, params)
 //@   property C16
 //@   returns err
 //@   modifies prm
@@ -481,7 +481,7 @@ package keeper
 //@   ensures rejected: err != nil ==> prm == old(prm)
 //@ end
 
-//@ func msgServer.UpdateParams
+//@ func msgServer.UpdateParams(goCtx, msg)
 //@   property C16
 //@   returns resp, err
 //@   modifies prm
@@ -498,22 +498,22 @@ package keeper
 // stored pools are filed under their own id and indexed by their liquidity-token denomination
 //@ define poolsWF = forall i:Str :: has(pools, i) ==> get(pools, i).Id == i && has(lptIndex, get(pools, i).LptDenom) && get(lptIndex, get(pools, i).LptDenom) == i
 
-//@ func Keeper.GetAllPools
+//@ func Keeper.GetAllPools(ctx)
 //@   inline
 //@   invariant #1 pos:    0 <= it_idx && it_idx <= it_n && len(l_pools) == it_idx
 //@   invariant #1 listed: forall j:Int :: 0 <= j && j < it_idx ==> has(pools, it_seq[j]) && l_pools[j] == get(pools, it_seq[j])
 //@   invariant #1 frame:  pools == old(pools) && lptIndex == old(lptIndex) && nextSeq == old(nextSeq) && stdDenom == old(stdDenom) && prm == old(prm)
 //@ end
-//@ func Keeper.ExportGenesis
+//@ func Keeper.ExportGenesis(ctx)
 //@   inline
 //@ end
-//@ func Keeper.InitGenesis
+//@ func Keeper.InitGenesis(ctx, genState)
 //@   inline
 //@   invariant #1 idx:   rangeindex >= 0 - 1 && rangeindex < len(genState.Pool)
 //@   invariant #1 same:  pools == old(pools) && lptIndex == old(lptIndex) && nextSeq == old(nextSeq) && stdDenom == old(stdDenom) && prm == old(prm)
 //@ end
 
-//@ func Keeper.verifGenesisRoundTrip
+//@ func Keeper.verifGenesisRoundTrip(ctx)
 //@   property C12
 //@   requires paramsStored && has(nextSeq) && has(stdDenom) && poolsWF
 //@   modifies pools, lptIndex, nextSeq, stdDenom, prm
